@@ -162,6 +162,11 @@ impl SocketRecv for RepSocket {
                             }
                         }
                         let data = m.split_off(at);
+                        if data.is_empty() {
+                            // The delimiter was the last frame: there is no request to hand
+                            // over, and a `ZmqMessage` must never have zero frames.
+                            return Err(ZmqError::Other("Invalid message format"));
+                        }
                         self.envelope = Some(m);
                         self.current_request = Some(peer_id);
                         return Ok(data);
